@@ -172,7 +172,12 @@ func check(c *core.Ctx, cs c02Case) (nontrivial bool, bucket string) {
 		return true, bucket
 	}
 	if cs.Layout {
-		bucket += "/" + layoutCheck(c, cs, b, data, groups)
+		// the thrift reader of the specification decoder is quadratic in the footer length: very large footers are left out
+		if flen := int(uint32(data[len(data)-8]) | uint32(data[len(data)-7])<<8 | uint32(data[len(data)-6])<<16 | uint32(data[len(data)-5])<<24); flen > c.N(24000, 200000) {
+			bucket += "/layout-skipped-large-footer"
+		} else {
+			bucket += "/" + layoutCheck(c, cs, b, data, groups)
+		}
 	}
 	return len(b.Rows) >= 2, bucket
 }
@@ -397,7 +402,10 @@ func joinSep(l []string, sep string) string {
 }
 
 func runCase(c *core.Ctx, cs c02Case, sample bool) {
-	if c.Probe(func() { check(c, cs) }) {
+	// the silent first run decides whether shrinking is needed; when nothing fails its result is the result
+	var nontrivial bool
+	var bucket string
+	if c.Probe(func() { nontrivial, bucket = check(c, cs) }) {
 		for cs.Gen.NRows > 1 {
 			t := cs
 			t.Gen.NRows = cs.Gen.NRows / 2
@@ -416,8 +424,8 @@ func runCase(c *core.Ctx, cs c02Case, sample bool) {
 				break
 			}
 		}
+		nontrivial, bucket = check(c, cs)
 	}
-	nontrivial, bucket := check(c, cs)
 	key, _ := json.Marshal(cs)
 	c.Case(bucket, string(key), nontrivial)
 	if sample {
